@@ -3,7 +3,7 @@
 From Coq Require Import ZArith List Bool Arith Lia.
 From SP Require Import Design.Flat Design.Layout Comb.CombModel Comb.CombSpec Random.Enum Random.Frag
   Random.RunLemmas Random.FragPerm Random.Frag0Enum.
-From SP Require Comb.PermProofs Comb.RadixProofs Comb.StackProofs.
+From SP Require Comb.PermProofs Comb.RadixProofs Comb.StackProofs Comb.TotalProofs.
 Import ListNotations.
 Open Scope nat_scope.
 Set Default Proof Using "All".
@@ -455,6 +455,26 @@ Proof.
   intros Hu. constructor; try apply (f0_memo_nil fb HF).
   - intros j Hj. apply perm_def_unw; [exact Hu | apply le_n | exact Hj].
   - intros _ j Hj. apply perm_def_unw; [exact Hu | apply Nat.lt_le_incl, (f0_leftover_lt fb HF) | exact Hj].
+Qed.
+
+(** with weights the memoised unranker returns (C13 totality) *)
+Lemma perm_def_total tc memo j : tc <= C -> f0_memo_ok fb memo -> (0 <= j < f0_N fb tc)%Z -> perm_def fb tc memo j.
+Proof.
+  intros Hle Hm Hj. destruct (f0_unw fb) eqn:Hu; [apply (perm_def_unw tc memo j Hu Hle Hj)|].
+  unfold perm_def, jth_permutation_indices. cbn [eb_m eb_unweighted eb_moc f0_base Z.eqb Pos.eqb andb].
+  rewrite Hu. unfold f0_moc. rewrite Hu. cbn [compute_jth_prefix_of_permutations_with_copies].
+  rewrite (f0_N_w fb HF tc Hu) in Hj.
+  destruct (TotalProofs.k_prefixes_unrank_total (Z.of_nat q) (Counters cws) (Z.of_nat tc) memo j
+              (f0_params_ok fb HF) ltac:(lia) (Hm Hu) Hj) as (wd & memo' & Hrun & Hun & _).
+  rewrite Hrun. cbn [lift rbind kperm fst]. f_equal. unfold perm_of, p_U. fold (f0_unw fb). rewrite Hu.
+  cbn [StackProofs.cs_of] in Hun. rewrite Hun. reflexivity.
+Qed.
+
+Lemma memos_ok_total m lm : f0_memo_ok fb m -> f0_memo_ok fb lm -> memos_ok fb m lm.
+Proof.
+  intros Hm Hlm. constructor; [exact Hm | exact Hlm | |].
+  - intros j Hj. apply perm_def_total; [apply le_n | exact Hm | exact Hj].
+  - intros _ j Hj. apply perm_def_total; [apply Nat.lt_le_incl, (f0_leftover_lt fb HF) | exact Hlm | exact Hj].
 Qed.
 
 End F0J.
